@@ -34,7 +34,7 @@ PROPS["C01"] = {
              "executed under 4 (quick) / 16 (thorough) tape-chosen release orders of the parked storage calls, a fresh storage order (shard ids) every second execution, every fourth execution as a BatchCheck of the duplicated query. "
              "Oracle: R1 stratified Zanzibar evaluator; limits non-binding by R1's criterion (no reachable cycle through a rewrite edge; max_read_depth=1000 >= 10*|reachable|+10). "
              "A case is non-trivial when the reference derivation has >=1 subject-set hop or rewrite edge and the answer is not decided by a direct tuple on the query node; distinct = distinct hash of (config, tuples, query)."),
-    "probes": ["probe_same_object_name_in_two_namespaces", "unwrapped_engine_checks", "probe_two_hops", "probe_concurrent_parked", "probe_traverse_listing", "strict_cases", "enc_opl", "enc_ast", "enc_none", "ref_allowed", "ref_denied"],
+    "probes": ["probe_same_object_name_in_two_namespaces", "probe_duplicates_below_intersection", "unwrapped_engine_checks", "probe_two_hops", "probe_concurrent_parked", "probe_traverse_listing", "strict_cases", "enc_opl", "enc_ast", "enc_none", "ref_allowed", "ref_denied"],
     "real": REAL_E, "stub": STUB_E,
     "fault_kinds": {},
     "assumptions": [
@@ -58,7 +58,7 @@ PROPS["C03"] = {
              "non-trivial = fault-free run issues >=2 storage calls; distinct = distinct hash of (config, tuples, query). exhaustive over k per case when N<=limit, cases sampled."),
     "probes": ["fault_transient", "fault_persistent", "fault_ctx", "fault_conflict", "fault_sql_io", "fault_sql_busy", "fault_sql_badconn", "fault_sql_ctx", "faults_masked", "outcome_error", "outcome_same", "base_allowed", "base_denied", "probe_denied_with_negation", "cases_all_positions"],
     "real": REAL_E, "stub": STUB_E + ["storage failures: injected at the relationtuple.Manager / Traverser seam (L1); the SQL-driver seam (L2) variant is a separate mode"],
-    "fault_kinds": {"transient": "k-th storage call returns an error instead of calling through", "persistent": "k-th and every later call fail", "conflict": "k-th call fails with sqlcon.ErrConcurrentUpdate (retryable kind)", "ctx": "request context cancelled at the k-th call, which returns context.Canceled"},
+    "fault_kinds": {"sql-down": "mode sql: from the k-th SQL statement on every statement fails (the database is gone for the rest of the request)", "transient": "k-th storage call returns an error instead of calling through", "persistent": "k-th and every later call fail", "conflict": "k-th call fails with sqlcon.ErrConcurrentUpdate (retryable kind)", "ctx": "request context cancelled at the k-th call, which returns context.Canceled"},
     "assumptions": ["fault-free answer of the same schedule is the reference (property statement)", "limits non-binding by R1's criterion", "faults are fail-stop at the storage API"],
 }
 
@@ -184,7 +184,7 @@ PROPS["C16"] = {
              "plus up to 260 generated names, and a batch of 1..250 tuples with repeats and the same string as object and subject. Checked: Mapper.FromTuple->ToTuple position by position, Map(s)=Map(s') <=> s=s', MapUUIDsToStrings with repeated ids, FromQuery->ToQuery, ToTree; "
              "then the batch is written through gRPC transact / REST patch / REST create and listed back (page sizes 0,1,100,101,250; REST and gRPC), listed by an adversarial object name, and expanded; strings must come back exactly, in the right fields. "
              "mode 'faults': one of the first 4 SQL statements of the listing fails (I/O): the read may fail, it may not return an empty or foreign string. non-trivial = >=3 distinct names; distinct = hash of the batch."),
-    "probes": ["probe_over_100_distinct_names", "probe_listing_after_partial_delete", "probe_batch_over_100", "probe_repeats_in_batch"],
+    "probes": ["probe_over_100_distinct_names", "probe_listing_after_partial_delete", "probe_names_sharing_a_long_prefix", "probe_batch_over_100", "probe_repeats_in_batch"],
     "real": REAL_S, "stub": STUB_S,
     "fault_kinds": {"io": "a SQL statement of the listing (tuple query or mapping lookup) returns an I/O error"},
     "assumptions": ["names are valid UTF-8 without NUL (JSON and protobuf cannot carry anything else)"],
@@ -223,7 +223,7 @@ PROPS["C05"] = {
              "mode isolation / isolation-wal (tier T): a writer toggling transact(insert X, delete Y) is parked before each of its statements while readers (REST list, gRPC list with paging, two checks) run to completion; the recorded history (event sequence numbers) is checked with porcupine against a two-state model. "
              "mode stmt-interleave (tier T, generalised): the toggling transaction (real PATCH handler) and one or two single-page listings run inside one scheduler bubble; every SQL statement and every acquisition of pop's SQLite mutexes is a scheduling point, so the whole transaction can also fall between two statements of one reader; a listing that answers shows the state before or after, and the stored state afterwards matches the acknowledgement. "
              "non-trivial = request touches >= 2 tuples (isolation: at least one read overlapped the transaction); distinct = hash of request shape and pre-state."),
-    "probes": ["probe_multi_chunk_insert", "probe_multi_chunk_delete", "probe_direct_manager_call", "failed_atomically", "invalid_positions", "invalid_positions_manager", "fault_crash", "fault_crash_after_ack", "reads_during_transaction", "porcupine_ok", "probe_reader_and_writer_interleaved", "probe_single_page_over_1000_rows"],
+    "probes": ["probe_multi_chunk_insert", "probe_multi_chunk_delete", "probe_direct_manager_call", "failed_atomically", "invalid_positions", "probe_action_in_another_spelling", "invalid_positions_manager", "fault_crash", "fault_crash_after_ack", "reads_during_transaction", "porcupine_ok", "probe_reader_and_writer_interleaved", "probe_single_page_over_1000_rows"],
     "real": REAL_S + ["SQLite file locking, rollback journal and WAL recovery (file-backed database in crash / isolation modes)", "porcupine v1.3.0 linearizability checker (isolation modes)"], "stub": STUB_S + ["crash = death of every connection + copy of the database files at that instant; power loss / torn pages / fsync lies are below any keto code and not modelled"],
     "fault_kinds": {"io": "statement returns an I/O error", "busy": "database is locked (pop retries)", "badconn": "driver.ErrBadConn", "full": "SQLITE_FULL", "ctx": "context.Canceled", "crash": "all connections die at statement k, files snapshotted"},
     "assumptions": ["fail-stop faults only: a 'commit succeeded but the ack was lost' fault without a crash is not injected (no implementation can satisfy 'unchanged when an error was returned' under it)", "isolation observed is SQLite's; keto's contribution (one transaction, every statement on the ctx connection) is what the monitor checks"],
@@ -240,7 +240,7 @@ PROPS["C08"] = {
              "(results in request order, one per tuple, a bad entry affects only its own result; over-limit batches are client errors). "
              "mode 'batch-order' (tier E): BatchCheck of 2-8 distinct queries with individually known reference answers inside a synctest bubble, parallelisation limit 1..6, 3/10 tape-chosen release orders of the workers' storage calls: results[i] must be the answer for tuples[i]. "
              "non-trivial = the reference derivation needs a hop or rewrite (batch-order: the batch mixes allowed and denied entries); distinct = hash of (config, tuples, query)."),
-    "probes": ["engine_allowed", "engine_denied", "probe_unknown_namespace", "probe_evil_twin_entries", "probe_empty_subject_id", "probe_mixed_batch", "probe_batch_over_limit", "probe_mixed_answers", "probe_workers_in_flight"],
+    "probes": ["engine_allowed", "engine_denied", "probe_unknown_namespace", "probe_evil_twin_entries", "probe_empty_subject_id", "probe_entry_with_both_subject_kinds", "probe_mixed_batch", "probe_batch_over_limit", "probe_mixed_answers", "probe_workers_in_flight"],
     "real": REAL_S + ["tier E part: real check.Engine.BatchCheck (errgroup workers) scheduled at the storage seam"], "stub": STUB_S,
     "fault_kinds": {},
     "assumptions": ["'never allowed' for an unknown namespace accepts both a denied answer and a client error; the transports need not agree on how they refuse"],
